@@ -101,6 +101,12 @@ class WireChopManager(WireManagerBase):
         super().update()
 
     def grade(self) -> None:
+        # grade() runs on every mesh.write(): start from empty gradings
+        # so that the same chops are not added a second time
+        self.grading = Grading(0)
+        for wire in self.wires:
+            wire.grading = Grading(wire.length)
+
         self.update()
 
         # Create a proper Grading from chops
